@@ -216,7 +216,8 @@ def oracle(run, cfg):
             bad.append(("fifo", f"receiver {list(k)} (thread {r}) got {got}, sender (thread {s}) sent {sent}"))
             continue
         left = final_q.get(k, [])
-        if got + left != sent:
+        # (only when no operation can be in flight: the run ended by completion or quiescence)
+        if run.end_reason in ("done", "quiescent") and got + left != sent:
             bad.append(("exactly-once", f"receiver {list(k)}: received {got} + still queued {left} != sent {sent}"))
         # a non-blocking receive must not report emptiness while a message was available all along
         nrecv = 0
@@ -249,6 +250,10 @@ def oracle(run, cfg):
         for (i, x, st, en, ls, le) in [z for z in res[t] if len(z) == 6]:
             if th["ops"][i][0] != "connect" or x != "ok":
                 continue
+            # the return was decided at this thread's last access inside the op (the op's
+            # bookkeeping may finish later, after other threads have moved)
+            mine_idx = [idx for idx in range(ls, le) if log[idx][0] == t]
+            le = (mine_idx[-1] + 1) if mine_idx else ls
             j = None
             for idx in range(le - 1, -1, -1):
                 if log[idx][1] == "open_add" and log[idx][2] == rk:
